@@ -7,5 +7,6 @@ from excel2pycl.src.translators.abstract_translator import AbstractTranslator
 class PatternTokenTranslator(AbstractTranslator):
     @classmethod
     def translate(cls, token: PatternToken, excel: Excel, context: Context) -> str:
-        # token.value[0] is the literal with its double quotes; re-quote it so that it stays inert text
-        return f'self._regexp({repr(token.value[0][1:-1])})'
+        # token.value[0] is the literal with its double quotes.  Outside a criterion a text with ? or * is just
+        # a text (="*" is "*"); the criterion translator (LambdaTokenTranslator) turns it into a regular expression
+        return repr(token.value[0][1:-1])
